@@ -236,6 +236,12 @@ impl vstd::std_specs::cmp::PartialEqSpecImpl for crate::semantic::types::Functio
     open spec fn eq_spec(&self, other: &crate::semantic::types::Function) -> bool { *self == *other }
 }
 
+/// derived `PartialEq` of the field-less enum `ItemCategory` is structural (A5)
+impl vstd::std_specs::cmp::PartialEqSpecImpl for crate::semantic::types::ItemCategory {
+    open spec fn obeys_eq_spec() -> bool { true }
+    open spec fn eq_spec(&self, other: &crate::semantic::types::ItemCategory) -> bool { *self == *other }
+}
+
 /// derived `Clone` impls are structural (A5)
 pub assume_specification [<crate::grammar::ItemPath as Clone>::clone] (p: &crate::grammar::ItemPath) -> (r: crate::grammar::ItemPath)
     ensures r == *p;
@@ -543,6 +549,78 @@ pub fn v_function_body_field(field: String, function_name: String) -> (r: crate:
     crate::semantic::types::FunctionBody::field(field, function_name)
 }
 }
+verus!{
+/// R-std: `m.iter().filter(|(_, v)| P(v)).map(|(k, _)| k.clone()).collect::<Vec<_>>()` over the registry map
+/// (**verified**, on vstd's iterator model of `HashMap::iter`): the keys whose value satisfies the predicate, each
+/// exactly as often as the map holds it (once); the order is the map's iteration order and is not specified
+pub fn v_filter_keys<F: Fn(&crate::semantic::types::ItemDefinition) -> bool>(m: &std::collections::HashMap<crate::grammar::ItemPath, crate::semantic::types::ItemDefinition>, f: F)
+    -> (r: Vec<crate::grammar::ItemPath>)
+    requires forall|d: crate::semantic::types::ItemDefinition| #[trigger] f.requires((&d,)),
+    ensures
+        forall|k: crate::grammar::ItemPath| #![trigger r@.contains(k)] r@.contains(k) ==> m@.contains_key(k) && f.ensures((&m@[k],), true),
+        forall|k: crate::grammar::ItemPath| #![trigger r@.contains(k)] m@.contains_key(k) && !r@.contains(k) ==> f.ensures((&m@[k],), false),
+{
+    use vstd::std_specs::iter::IteratorSpec;
+    broadcast use vstd::std_specs::hash::group_hash_axioms;
+    let mut out: Vec<crate::grammar::ItemPath> = Vec::new();
+    let it = m.iter();
+    let ghost all = it.remaining();
+    assert(forall|i: int| 0 <= i < all.len() ==> m@.contains_key(*(#[trigger] all[i]).0) && m@[*all[i].0] == *all[i].1);
+    assert(forall|k: crate::grammar::ItemPath| m@.contains_key(k) ==> exists|i: int| 0 <= i < all.len() && *(#[trigger] all[i]).0 == k);
+    for kv in iter: it
+        invariant
+            iter.snapshot@.remaining() == all,
+            iter.history@.len() == iter.index@,
+            iter.history@ + iter.iter.remaining() == all,
+            forall|d: crate::semantic::types::ItemDefinition| #[trigger] f.requires((&d,)),
+            forall|i: int| 0 <= i < all.len() ==> m@.contains_key(*(#[trigger] all[i]).0) && m@[*all[i].0] == *all[i].1,
+            forall|x: crate::grammar::ItemPath| #![trigger out@.contains(x)] out@.contains(x) ==> exists|i: int| 0 <= i < iter.index@ && *(#[trigger] all[i]).0 == x && f.ensures((all[i].1,), true),
+            forall|i: int| 0 <= i < iter.index@ ==> out@.contains(*(#[trigger] all[i]).0) || f.ensures((all[i].1,), false),
+    {
+        let (k, v) = kv;
+        let ghost idx = iter.index@;
+        let ghost out0 = out@;
+        proof { assert(0 <= idx < all.len()); assert(kv == all[idx]); }
+        if f(v) {
+            out.push(k.clone());
+            proof {
+                assert(out@ =~= out0.push(*k));
+                assert forall|x: crate::grammar::ItemPath| #![trigger out@.contains(x)] out@.contains(x) implies exists|i: int| 0 <= i < idx + 1 && *(#[trigger] all[i]).0 == x && f.ensures((all[i].1,), true) by {
+                    let j = choose|j: int| 0 <= j < out@.len() && out@[j] == x;
+                    if j < out0.len() {
+                        assert(out0[j] == x);
+                        assert(out0.contains(x));
+                        let i = choose|i: int| 0 <= i < idx && *(#[trigger] all[i]).0 == x && f.ensures((all[i].1,), true);
+                        assert(0 <= i < idx + 1);
+                    } else {
+                        assert(x == *k);
+                        assert(*all[idx].0 == x && f.ensures((all[idx].1,), true));
+                    }
+                }
+                assert forall|i: int| 0 <= i < idx + 1 implies out@.contains(*(#[trigger] all[i]).0) || f.ensures((all[i].1,), false) by {
+                    if i < idx {
+                        if out0.contains(*all[i].0) { let j = choose|j: int| 0 <= j < out0.len() && out0[j] == *all[i].0; assert(out@[j] == *all[i].0); }
+                    } else {
+                        assert(out@[out0.len() as int] == *k);
+                    }
+                }
+            }
+        } else {
+            proof {
+                assert forall|i: int| 0 <= i < idx + 1 implies out@.contains(*(#[trigger] all[i]).0) || f.ensures((all[i].1,), false) by { }
+            }
+        }
+    }
+    proof {
+        assert forall|k: crate::grammar::ItemPath| #![trigger out@.contains(k)] m@.contains_key(k) && !out@.contains(k) implies f.ensures((&m@[k],), false) by {
+            let i = choose|i: int| 0 <= i < all.len() && *(#[trigger] all[i]).0 == k;
+            assert(out@.contains(*all[i].0) || f.ensures((all[i].1,), false));
+        }
+    }
+    out
+}
+} // verus!
+
 pub mod strset {
 use vstd::prelude::*;
 verus!{
